@@ -21,13 +21,16 @@ class Ref0:
         self.uni = ex.uni
         self.z = ex.z
 
-    def unaltered(self, a, b):
-        """formula: the configured comparison judges a (recorded term) and b (current term) unaltered"""
+    def unaltered(self, a, b, consumer='!!!'):
+        """formula: the configured comparison, asked on behalf of `consumer`, judges a (recorded term) and b (current
+        term) unaltered"""
         m = self.uni.mode
         if m == 'ident':
             return F.Eq(a, b)
         if m == 'rel':
             return F.Rel(a, b)
+        if m == 'reld':
+            return F.RelD(consumer, a, b)
         return F.Or(F.Eq(a, b), F.Rel(a, b))
 
     def pres(self, spec):
@@ -73,7 +76,7 @@ class Ref0:
         pe = F.FALSE
         if e is not None:
             pe = self.pres(e)
-            direct = F.And(pe, self.unaltered(rt.term_of(e[0]), cur_u))
+            direct = F.And(pe, self.unaltered(rt.term_of(e[0]), cur_u, j))
         cands = self.renamed_candidates(u, j)
         if not cands:
             return direct
@@ -84,7 +87,7 @@ class Ref0:
         absent_so_far = F.Not(pe)
         for ov, k in cands:
             sp = uni.hist_spec[k]
-            out = F.Or(out, F.And(absent_so_far, self.pres(sp), self.unaltered(rt.term_of(sp[0]), cur_u)))
+            out = F.Or(out, F.And(absent_so_far, self.pres(sp), self.unaltered(rt.term_of(sp[0]), cur_u, j)))
             absent_so_far = F.And(absent_so_far, F.Not(self.pres(sp)))
         return out
 
@@ -223,6 +226,10 @@ class SafetyMonitor(Monitor):
             sn = ex.job_state_name(st, u)
             if not fin_ok(sn):
                 ex.report('C02', 'job %s offered while upstream %s is %s' % (j, u, sn), st)
+                if sn in ('FinishedFailure', 'FinishedUpstreamFailure'):
+                    # a job behind a job that the engine itself reports failed / upstream-failed is one of the jobs
+                    # "thereby prevented from running": it must not be offered afterwards
+                    ex.report('C07', 'job %s newly offered although its direct upstream %s is reported %s' % (j, u, sn), st)
                 continue
             k = uni.kind[u]
             if k == 'Output':
@@ -475,7 +482,7 @@ class OracleMonitor(Monitor):
                         ex.report('C08', 'record %r of what failed job %s last consumed was changed' % (k, j), st)
             elif j not in dv.started and state[j] in ('FinishedUpstreamFailure', 'FinishedAborted'):
                 for k in own_keys + ['%s!!!%s' % (u, j) for u in ups]:
-                    if not self.entries_identical(st, h_entry(h1, k), spec_entry(uni, k), modulo=True):
+                    if not self.entries_identical(st, h_entry(h1, k), spec_entry(uni, k), modulo=True, consumer=(j if '!!!' in k and not k.endswith('!!!') else '!!!')):
                         ex.report('C09', 'never-started job %s (%s): record %r not kept unchanged' % (j, state[j], k), st)
             elif j in okd:
                 p, v = h_entry(h1, j)
@@ -503,7 +510,7 @@ class OracleMonitor(Monitor):
                     if p is False:
                         ex.report('C11', 'validly skipped job %s: record %r missing from the returned history' % (j, k), st)
                         continue
-                    f = F.And(F.Atom(p), self.ref.unaltered(rt.term_of(v), cur[u]))
+                    f = F.And(F.Atom(p), self.ref.unaltered(rt.term_of(v), cur[u], j))
                     self.oblige(st, 'C11', f, 'validly skipped job %s: record %r does not match the current output of %s' % (j, k, u))
         # WF is inductive: own record and input-name record present together
         for j in uni.ids:
@@ -513,7 +520,7 @@ class OracleMonitor(Monitor):
                 self.oblige(st, 'C11', F.Iff(F.Atom(p1), F.Atom(p2)), 'returned history has record %r without %r (or vice versa)' % (j, j + '!!!'))
         self.check_c18(st, h1)
 
-    def entries_identical(self, st, a, b, modulo=False, need_present=False):
+    def entries_identical(self, st, a, b, modulo=False, need_present=False, consumer='!!!'):
         """entry a (returned) vs b (input history): same presence and same value"""
         pa, va = a
         pb, vb = b
@@ -534,7 +541,7 @@ class OracleMonitor(Monitor):
             return True
         ta = rt.term_of(va)
         tb = rt.term_of(vb)
-        f = self.ref.unaltered(tb, ta) if (modulo and self.uni.mode != 'ident') else F.Eq(ta, tb)
+        f = self.ref.unaltered(tb, ta, consumer) if (modulo and self.uni.mode != 'ident') else F.Eq(ta, tb)
         ok, _ = z.valid_f(st.pc, st.fpc(), F.Implies(F.Atom(pa), f))
         return ok
 
